@@ -10,7 +10,7 @@ RULE = ('worlds run with -x: a grid over the position of the first bad test (fir
         'un-tearable (so that later layers are resumed in subprocesses) or not, plus random worlds with -x; '
         'non-trivial = at least two tests after the first bad one or a later layer')
 TRUSTED_BASE = COMMON_TRUSTED
-ASSUMPTIONS = COMMON_ASSUMPTIONS + ['-x with -j N > 1 is not generated']
+ASSUMPTIONS = COMMON_ASSUMPTIONS + ['-x with -j N > 1: which children have started when the first failure arrives is a race; such worlds are judged by the race-independent part of the statement only (parallel batch)']
 BAD = [{'body': 'fail'}, {'body': 'error'}, {'xf': True}, {'subs': ['ok', 'fail', 'ok']}, 'layer']
 
 
@@ -50,10 +50,56 @@ def nontrivial(c):
     return len(c['tests']) >= 3
 
 
+class Parallel:
+    """-x with -j N: a layer fails at once while another one is in the middle of a long test."""
+    CHECK_FN = 'check_C16_parallel'
+    LABEL = 'parallel'
+    CHK = CHK
+    IMPORTS = IMPORTS
+    SHARD = SHARD
+    CASE_TYPE = CASE_TYPE
+    RULE = ('parallel batch: -x with -j 2/3 over 3..4 layers; one layer fails in its first test while the others are in the middle of a '
+            'test that takes 1.5 s, further layers waiting; only what the statement says regardless of the race is evaluated (every '
+            'process tears down what it set up, verdict failed, nothing escapes)')
+    EXHAUSTIVE = {}
+
+    def generate(self, rng, tier, rep):
+        cases = []
+        for k in range({'quick': 6, 'thorough': 40, 'search': 4}[tier]):
+            nl = rng.choice([3, 4])
+            layers = [{'name': n, 'bases': [], 'kind': 'instance', 'hooks': {'setUp': ['ok'], 'tearDown': ['ok']}}
+                      for n in rng.sample(worldcase.LNAMES, nl)]
+            bad = rng.randrange(nl)
+            tests = []
+            for j in range(nl):
+                if j == bad:
+                    tests.append(dict({'layer': j}, **rng.choice([{'body': 'fail'}, {'body': 'error'}, {'subs': ['fail']}])))
+                else:
+                    tests.append({'layer': j, 'sleep': 1.5})
+                tests.append({'layer': j})
+            cases.append({'layers': layers, 'tests': tests, 'options': ['-x', '-j%d' % rng.choice([2, 3])] + rng.choice([[], ['-v']])})
+            rep.count('parallel -x layers=%d' % nl)
+        return cases
+
+    def observe(self, cases):
+        return observe(cases)
+
+    def to_coq(self, c, o):
+        return to_coq(c, o)
+
+    def nontrivial(self, c):
+        return True
+
+    def shrink_candidates(self, c):
+        return []
+
+
+EXTRA_BATCHES = [Parallel()]
+
 TECHNIQUE = ('Coq model of the run with -x (Run.run_seq / repeat_loop / parent_loop / resume_seq) and the statement as a boolean '
              'predicate (Obs.c16_ok); theorems in P_C16.v; correspondence check on generated worlds, predicate evaluated on the real traces')
 LEVEL_TEXT = ('The model with --stop-on-error is compared event-by-event with the real runner over the full position x kind x repeat x '
               'resume grid and random worlds; c16_ok (no test start and no layer set-up after the first recorded failure in the '
               'sequential history of processes, leftovers torn down, summary printed, verdict failed) is evaluated on the real traces.'
               ' Whole-run theorems (RunStop.v): under -x no start/set-up after the first bad outcome in any process, no child afterwards, verdict failed.')
-LEVEL_NOTE = 'With -j N > 1 which children have started when the first failure arrives is a race; not generated.'
+LEVEL_NOTE = 'With -j N > 1 which children have started when the first failure arrives is a race: only tear-down, verdict and containment are evaluated there.'
